@@ -883,7 +883,11 @@ func do_WITH_CLEANUP(vm *Vm, arg int32) error {
 
 	wasErr := false
 	if exc != py.None {
-		wasErr = res == py.True
+		// any true value suppresses the exception, not only the object True
+		wasErr, err = py.ObjectIsTrue(res)
+		if err != nil {
+			return err
+		}
 	}
 	if wasErr {
 		/* There was an exception and a True return */
